@@ -107,6 +107,7 @@ let () =
              Printf.printf "D %s r=%d conn=%s sh=%d\n" (join ";" show_cev evs) (List.length (readable c'.c_in))
                (b01 c'.c_connected) (min 1 (int_of_nat c'.c_shutdowns))
          | _ -> dead := true; print_string "D FAULT\n")
+    | ["D"; d] when !kind = "hsrv" && (!sconn).s_aborted -> print_string "D skipped (aborted)\n"
     | ["D"; d] when !kind = "hsrv" ->
         let (evs, c') = srv_deliver demo_callback !sconn (spec2 d) in
         sconn := c';
